@@ -229,11 +229,17 @@ Section FkOpen.
     fk (fun s => (Done VNil, with_arrays s (set_nth a (mkArr (set_nth (Z.to_nat i) v (a_elems o)) (a_ty o)) (arrays s)))).
   Proof. intros. apply fk_silent. intros s r s' H. inversion H; subst. auto. Qed.
 
+  Lemma fk_cat_arrs : forall rest acc, fk (cat_arrs acc rest).
+  Proof.
+    induction rest as [|b r IH]; simpl; intros acc; [apply fk_ret|].
+    destruct b; try apply fk_raise. apply fk_bind; [apply fk_get_arr|]. intros o. apply IH.
+  Qed.
+
   Ltac fk_auto :=
     repeat first
       [ apply fk_ret | apply fk_raise | apply fk_alloc_arr | apply fk_aset_write
-      | apply fk_compare_prim | apply fk_arith | apply Hap | apply fk_map_pairs
-      | apply fk_bind; [first [apply fk_get_arr | apply fk_map_arr]|intros ?]
+      | apply fk_compare_prim | apply fk_arith | apply Hap | apply fk_map_pairs | apply fk_cat_arrs
+      | apply fk_bind; [first [apply fk_get_arr | apply fk_map_arr | apply fk_cat_arrs]|intros ?]
       | match goal with |- fk (match ?x with _ => _ end) => destruct x end
       | match goal with |- fk (if ?x then _ else _) => destruct x end ].
 
